@@ -109,21 +109,60 @@ theorem eval_guard (km : KindMap) (E' : EEnv) (s : String) (i j : Nat) (e x : Ed
   unfold binOp
   exact vCompare_int_ne _ _
 
-/-- `[n.kind_ids @> array[…] and] n.id = e.end_id` on a row holding node n under alias `al` and the edge under alias `ek` -/
+/-- the binding of a relationship under alias `ek` -/
+def eBA (ek : String) (km : KindMap) (e : EdgeRec) : Binding := ⟨ek, edgeCols, encodeEdge km e⟩
+
+theorem lookup_eA (ek : String) (km : KindMap) (l : Level) (rest : List Level) (e : EdgeRec) (h : findBinding ek l = some (eBA ek km e)) :
+    lookupQualifiedV ek "id" (l :: rest) = .ok (.int e.id) ∧
+    lookupQualifiedV ek "start_id" (l :: rest) = .ok (.int e.start) ∧
+    lookupQualifiedV ek "end_id" (l :: rest) = .ok (.int e.stop) ∧
+    lookupQualifiedV ek "kind_id" (l :: rest) = .ok (.int ((km.id? e.kind).getD 0)) ∧
+    lookupQualifiedV ek "properties" (l :: rest) = .ok (.jsonb (.obj e.props)) := by
+  refine ⟨?_, ?_, ?_, ?_, ?_⟩ <;> simp [lookupQualifiedV, h, eBA, colVals, edgeCols, encodeEdge]
+
+/-- a row that binds relationship `e` under alias `ek` shows it as an entity to lowered predicates -/
+theorem entAt_edgeA (km : KindMap) (hinj : ∀ a b i, km.id? a = some i → km.id? b = some i → a = b)
+    (E : EEnv) (l : Level) (ek : String) (e : EdgeRec) (he : findBinding ek l = some (eBA ek km e)) (hknown : (km.id? e.kind).isSome = true) :
+    EntAt km (E.push l) ek true (edgeEnt e) where
+  id := by rw [show Expr.compound [ek, "id"] = S2.col ek "id" from rfl, eval_col]; exact (lookup_eA ek km l E.levels e he).1
+  props := by rw [show Expr.compound [ek, "properties"] = S2.col ek "properties" from rfl, eval_col]; exact (lookup_eA ek km l E.levels e he).2.2.2.2
+  kinds ks ids hids := by
+    obtain ⟨kid, hkid⟩ := Option.isSome_iff_exists.mp hknown
+    unfold kindsExpr
+    simp only [if_true]
+    rw [evalExpr]
+    have h1 : ("=" == "and" || "=" == "or") = false := by decide
+    rw [show Expr.compound [ek, "kind_id"] = S2.col ek "kind_id" from rfl, eval_col, evalExpr.eq_def (E.push l) (.lit ..)]
+    simp only [EEnv.push, (lookup_eA ek km l E.levels e he).2.2.2.1, hkid, Option.getD_some, litVal, ebind_ok, List.map_map, Function.comp_def]
+    simp only [h1, Bool.false_eq_true, if_false]
+    have := anyOp_ints (Int.ofNat kid) ids
+    simp only [List.map_map, Function.comp_def, Int.ofNat_eq_natCast] at this ⊢
+    rw [this]
+    simp only [edgeEnt]
+    congr 2
+    have := any_kind_ids km hinj e.kind kid hkid ks ids hids
+    simpa [Int.ofNat_eq_natCast] using this
+
+/-- `[(conjuncts over n) and] [n.kind_ids @> array[…] and] n.id = e.end_id` on a row holding node n under alias `al` and the edge under alias `ek` -/
 theorem joinOnE_ben (km : KindMap) (hinj : ∀ a b i, km.id? a = some i → km.id? b = some i → a = b)
     (E : EEnv) (l : Level) (al ek : String) (e : EdgeRec) (n : NodeRec)
-    (hn : findBinding al l = some (nB al km n)) (hep : lookupQualifiedV ek "end_id" (l :: E.levels) = .ok (.int e.stop))
-    (ks : List String) (kid : Option (List Nat)) (hk : S2.kindIds? km ks = some kid) :
-    BenignT (whTest E (some (Ch.joinOnE al ek kid)) l) (Cy.kindsAllOf n.kinds ks && n.id == e.stop) := by
+    (hn : findBinding al l = some (nB al km n)) (hnn : ∀ k, Json.lookup k n.props ≠ some .null)
+    (hep : lookupQualifiedV ek "end_id" (l :: E.levels) = .ok (.int e.stop))
+    (ks : List String) (kid : Option (List Nat)) (hk : S2.kindIds? km ks = some kid)
+    (ps : List S1.Pred) (pe : Option Expr) (hp : S2.predsE km al false ps = some pe) :
+    BenignT (whTest E (some (Ch.joinOnE al ek (S2.both pe (S2.nodeKindsE al kid)))) l)
+      ((okPreds (nodeEnt n) ps && Cy.kindsAllOf n.kinds ks) && n.id == e.stop) := by
   have H := entAt_node km hinj E l al n hn
   have hid := (lookup_n al km l E.levels n hn).1
   have heq : evalExpr (E.push l) (.bin "=" (S2.col al "id") (S2.col ek "end_id")) = .ok (.bool (n.id == e.stop)) := by
     rw [eval_bin _ "=" (S2.col al "id") (S2.col ek "end_id") (by decide) (col_not_any ..).1 (col_not_any ..).2, eval_col, eval_col]
     simp only [EEnv.push, hid, hep, ebind_ok, binOp_eq, vCompare_int_eq]
-  have hc := nodeKindsE_ben H ks kid hk (by simp [nodeEnt, Cy.kindsAllOf])
-  have hall : OptBen (E.push l) (some (Ch.joinOnE al ek kid)) (Cy.triAnd (some ((nodeEnt n).kindsOk ks)) (some (n.id == e.stop))) := by
+  have hc := both_ben (E.push l) pe (S2.nodeKindsE al kid) _ _ (predsE_ben H hnn ps pe hp)
+    (nodeKindsE_ben H ks kid hk (by simp [nodeEnt, Cy.kindsAllOf]))
+  have hall : OptBen (E.push l) (some (Ch.joinOnE al ek (S2.both pe (S2.nodeKindsE al kid))))
+      (Cy.triAnd (Cy.triAnd (conjT (ps.map (semE (nodeEnt n)))) (some ((nodeEnt n).kindsOk ks))) (some (n.id == e.stop))) := by
     unfold Ch.joinOnE
-    cases hb : S2.nodeKindsE al kid with
+    cases hb : S2.both pe (S2.nodeKindsE al kid) with
     | none =>
       rw [hb] at hc
       simp only [OptBen] at hc
@@ -133,7 +172,7 @@ theorem joinOnE_ben (km : KindMap) (hinj : ∀ a b i, km.id? a = some i → km.i
       rw [hb] at hc
       exact ⟨and_ben _ _ _ _ _ hc.1 (Or.inl heq) (bin_not_any ..).1 (bin_not_any ..).2, bin_not_any ..⟩
   have := whTest_ben E _ l _ hall
-  rw [triAnd_is_true] at this
+  rw [triAnd_is_true, triAnd_is_true, okPreds_conjT] at this
   simpa [nodeEnt] using this
 
 /-- relationship kinds of a later step: `e_i.kind_id = any (array[…])` -/
@@ -172,13 +211,15 @@ def pE (c : Chain) (e : EdgeRec) : Bool :=
   match c.ns.getLast? with
   | some l => l.id == e.start
   | none => false
-def pN (nk : List String) (e : EdgeRec) (n : NodeRec) : Bool := Cy.kindsAllOf n.kinds nk && n.id == e.stop
-def pW (rk : List String) (c : Chain) (e : EdgeRec) : Bool := Cy.kindAnyOf e.kind rk && !(c.es.map (·.id)).contains e.id
+def pN (nk : List String) (psn : List S1.Pred) (e : EdgeRec) (n : NodeRec) : Bool :=
+  (okPreds (nodeEnt n) psn && Cy.kindsAllOf n.kinds nk) && n.id == e.stop
+def pW (rk : List String) (psr : List S1.Pred) (c : Chain) (e : EdgeRec) : Bool :=
+  (okPreds (edgeEnt e) psr && Cy.kindAnyOf e.kind rk) && !(c.es.map (·.id)).contains e.id
 
-/-- the rows of frame `s_i` in the order the statement produces them -/
-def stepRows (g : Graph) (rk nk : List String) (cs : List Chain) : List Chain :=
-  ((cs.flatMap (fun c => (g.edges.filter (pE c)).flatMap (fun e => (g.nodes.filter (pN nk e)).map (fun n => (c, e, n))))).filter
-    (fun t => pW rk t.1 t.2.1)).map (fun t => ⟨t.1.es ++ [t.2.1], t.1.ns ++ [t.2.2]⟩)
+/-- the rows of frame `s_i` in the order the statement produces them (`psr` / `psn`: the WHERE conjuncts over the new relationship / node) -/
+def stepRows (g : Graph) (rk nk : List String) (psr psn : List S1.Pred) (cs : List Chain) : List Chain :=
+  ((cs.flatMap (fun c => (g.edges.filter (pE c)).flatMap (fun e => (g.nodes.filter (pN nk psn e)).map (fun n => (c, e, n))))).filter
+    (fun t => pW rk psr t.1 t.2.1)).map (fun t => ⟨t.1.es ++ [t.2.1], t.1.ns ++ [t.2.2]⟩)
 
 theorem lookup_edge_Ec (km : KindMap) (g : Graph) (ctes : List (String × Table)) (h : ctes.lookup "edge" = none) :
     lookupTableE (Ec (encode km g) ctes) "edge" = .ok ⟨edgeCols, g.edges.map (encodeEdge km)⟩ := by
@@ -197,15 +238,17 @@ theorem frame1 (km : KindMap) (hinj : ∀ a b i, km.id? a = some i → km.id? b 
     (hknown : ∀ e ∈ g.edges, (km.id? e.kind).isSome = true) (ctes : List (String × Table)) (cs : List Chain)
     (hshape : ∀ c ∈ cs, ∃ x0 y0 y1, c = ⟨[x0], [y0, y1]⟩)
     (hS : ctes.lookup "s0" = some ⟨["e0", "n0", "n1"], cs.map (rowOf km)⟩) (hedge : ctes.lookup "edge" = none) (hnode : ctes.lookup "node" = none)
-    (rk nk : List String) (kr kn : Option (List Nat)) (hkr : S2.kindIds? km rk = some kr) (hkn : S2.kindIds? km nk = some kn) :
-    BenignT (evalQuery (Ec (encode km g) ctes) (Ch.stepFrame 1 kr kn))
-      (⟨["e0", "e1", "n0", "n1", "n2"], (stepRows g rk nk cs).map (rowOf km)⟩ : Table) := by
-  have hq : Ch.stepFrame 1 kr kn = Query.simple (.select false
+    (rk nk : List String) (kr kn : Option (List Nat)) (hkr : S2.kindIds? km rk = some kr) (hkn : S2.kindIds? km nk = some kn)
+    (hnn : ∀ n ∈ g.nodes, ∀ k, Json.lookup k n.props ≠ some .null) (hen : ∀ e ∈ g.edges, ∀ k, Json.lookup k e.props ≠ some .null)
+    (psr psn : List S1.Pred) (pr pn : Option Expr) (hpr : S2.predsE km "e1" true psr = some pr) (hpn : S2.predsE km "n2" false psn = some pn) :
+    BenignT (evalQuery (Ec (encode km g) ctes) (Ch.stepFrame 1 kr kn pr pn))
+      (⟨["e0", "e1", "n0", "n1", "n2"], (stepRows g rk nk psr psn cs).map (rowOf km)⟩ : Table) := by
+  have hq : Ch.stepFrame 1 kr kn pr pn = Query.simple (.select false
       [Ch.carry "s0" "e0", Ch.edgeCompositeOf "e1", Ch.carry "s0" "n0", Ch.carry "s0" "n1", S2.nodeCompositeOf "n2"]
       [.mk (.table ["s0"] none)
         [.mk .inner (.table ["edge"] (some "e1")) (some (.bin "=" (.rowCol (S2.col "s0" "n1") "id") (S2.col "e1" "start_id"))),
-         .mk .inner (.table ["node"] (some "n2")) (some (Ch.joinOnE "n2" "e1" kn))]]
-      (S2.both (kr.map (fun ids => Expr.bin "=" (S2.col "e1" "kind_id") (.anyOf (S2.kindsLit ids)))) (some (Ch.guard "s0" 1 0))) [] none) := rfl
+         .mk .inner (.table ["node"] (some "n2")) (some (Ch.joinOnE "n2" "e1" (S2.both pn (S2.nodeKindsE "n2" kn))))]]
+      (S2.both (S2.both pr (kr.map (fun ids => Expr.bin "=" (S2.col "e1" "kind_id") (.anyOf (S2.kindsLit ids))))) (some (Ch.guard "s0" 1 0))) [] none) := rfl
   rw [hq, evalQuery_simple, evalSelect_from' _ _ _ _ (by decide)]
   simp only [bind_assoc]
   -- the level of a FROM row
@@ -213,9 +256,9 @@ theorem frame1 (km : KindMap) (hinj : ∀ a b i, km.id? a = some i → km.id? b 
     [(⟨"s0", ["e0", "n0", "n1"], rowOf km t.1⟩ : Binding), ⟨"e1", edgeCols, encodeEdge km t.2.1⟩, ⟨"n2", nodeCols, encodeNode km t.2.2⟩]
   have hfrom := chain_from km g (Ec (encode km g) ctes) (lookup_edge_Ec km g ctes hedge) (lookup_node_Ec km g ctes hnode) "s0" ["e0", "n0", "n1"]
     cs (rowOf km) (lookup_cte_Ec _ ctes "s0" _ hS) "e1" "n2"
-    (.bin "=" (.rowCol (S2.col "s0" "n1") "id") (S2.col "e1" "start_id")) (Ch.joinOnE "n2" "e1" kn) pE (fun _ e n => pN nk e n) ?_ ?_
+    (.bin "=" (.rowCol (S2.col "s0" "n1") "id") (S2.col "e1" "start_id")) (Ch.joinOnE "n2" "e1" (S2.both pn (S2.nodeKindsE "n2" kn))) pE (fun _ e n => pN nk psn e n) ?_ ?_
   · apply benT_bind hfrom
-    apply benT_bind (filterE_ben lv _ (fun t => pW rk t.1 t.2.1) _ ?_)
+    apply benT_bind (filterE_ben lv _ (fun t => pW rk psr t.1 t.2.1) _ ?_)
     · left
       rw [mapE_map_ok lv _ (fun t => (rowOf km ⟨t.1.es ++ [t.2.1], t.1.ns ++ [t.2.2]⟩, some ((Ec (encode km g) ctes).push (lv t))))]
       · simp only [ebind_ok, epure_ok, stepRows, List.map_map, Function.comp_def]
@@ -256,11 +299,14 @@ theorem frame1 (km : KindMap) (hinj : ∀ a b i, km.id? a = some i → km.id? b 
         rw [eval_col]; simp [lv, Ch.eN, EEnv.push, lookupQualifiedV, findBinding, colVals, rowOf]
       have hg : OptBen ((Ec (encode km g) ctes).push (lv (⟨[x0], [y0, y1]⟩, e, n))) (some (Ch.guard "s0" 1 0)) (some (e.id != x0.id)) :=
         ⟨Or.inl (eval_guard km _ "s0" 1 0 e x0 hid h0), by unfold Ch.guard; exact bin_not_any ..⟩
-      have := whTest_ben _ _ _ _ (both_ben _ _ _ _ _ (stepKinds_ben km hinj _ _ "e1" e hkid (hknown e hem) rk kr hkr) hg)
-      rw [triAnd_is_true] at this
-      have hb : pW rk ⟨[x0], [y0, y1]⟩ e = ((some (Cy.kindAnyOf e.kind rk) == some true) && (some (e.id != x0.id) == some true)) := by
+      have Hed := entAt_edgeA km hinj (Ec (encode km g) ctes) (lv (⟨[x0], [y0, y1]⟩, e, n)) "e1" e (by simp [lv, findBinding, eBA]) (hknown e hem)
+      have hpreds := predsE_ben Hed (hen e hem) psr pr hpr
+      have := whTest_ben _ _ _ _ (both_ben _ _ _ _ _ (both_ben _ _ _ _ _ hpreds (stepKinds_ben km hinj _ _ "e1" e hkid (hknown e hem) rk kr hkr)) hg)
+      rw [triAnd_is_true, triAnd_is_true, okPreds_conjT] at this
+      have hb : pW rk psr ⟨[x0], [y0, y1]⟩ e =
+          ((okPreds (edgeEnt e) psr && (some (Cy.kindAnyOf e.kind rk) == some true)) && (some (e.id != x0.id) == some true)) := by
         simp only [pW, List.map_cons, List.map_nil, List.contains_cons, List.contains_nil, Bool.or_false, bne]
-        cases Cy.kindAnyOf e.kind rk <;> cases (e.id == x0.id) <;> rfl
+        cases okPreds (edgeEnt e) psr <;> cases Cy.kindAnyOf e.kind rk <;> cases (e.id == x0.id) <;> rfl
       rw [hb]; exact this
   · -- ON of the edge join
     intro c hc e _
@@ -272,23 +318,25 @@ theorem frame1 (km : KindMap) (hinj : ∀ a b i, km.id? a = some i → km.id? b 
     rw [eval_bin _ "=" _ _ (by decide) (col_not_any ..).1 (col_not_any ..).2, rowCol_node_id _ _ km y1 h2, eval_col]
     simp [EEnv.push, lookupQualifiedV, findBinding, colVals, edgeCols, encodeEdge, binOp_eq, vCompare_int_eq, pE]
   · -- ON of the node join
-    intro c hc e _ n _
-    exact joinOnE_ben km hinj _ _ "n2" "e1" e n (by simp [findBinding, nB]) (by simp [lookupQualifiedV, findBinding, colVals, edgeCols, encodeEdge]) nk kn hkn
+    intro c hc e _ n hnm
+    exact joinOnE_ben km hinj _ _ "n2" "e1" e n (by simp [findBinding, nB]) (hnn n hnm) (by simp [lookupQualifiedV, findBinding, colVals, edgeCols, encodeEdge]) nk kn hkn psn pn hpn
 
 /-- frame `s2`: extends the two-hop matches in `s1` -/
 theorem frame2 (km : KindMap) (hinj : ∀ a b i, km.id? a = some i → km.id? b = some i → a = b) (g : Graph)
     (hknown : ∀ e ∈ g.edges, (km.id? e.kind).isSome = true) (ctes : List (String × Table)) (cs : List Chain)
     (hshape : ∀ c ∈ cs, ∃ x0 x1 y0 y1 y2, c = ⟨[x0, x1], [y0, y1, y2]⟩)
     (hS : ctes.lookup "s1" = some ⟨["e0", "e1", "n0", "n1", "n2"], cs.map (rowOf km)⟩) (hedge : ctes.lookup "edge" = none) (hnode : ctes.lookup "node" = none)
-    (rk nk : List String) (kr kn : Option (List Nat)) (hkr : S2.kindIds? km rk = some kr) (hkn : S2.kindIds? km nk = some kn) :
-    BenignT (evalQuery (Ec (encode km g) ctes) (Ch.stepFrame 2 kr kn))
-      (⟨["e0", "e1", "e2", "n0", "n1", "n2", "n3"], (stepRows g rk nk cs).map (rowOf km)⟩ : Table) := by
-  have hq : Ch.stepFrame 2 kr kn = Query.simple (.select false
+    (rk nk : List String) (kr kn : Option (List Nat)) (hkr : S2.kindIds? km rk = some kr) (hkn : S2.kindIds? km nk = some kn)
+    (hnn : ∀ n ∈ g.nodes, ∀ k, Json.lookup k n.props ≠ some .null) (hen : ∀ e ∈ g.edges, ∀ k, Json.lookup k e.props ≠ some .null)
+    (psr psn : List S1.Pred) (pr pn : Option Expr) (hpr : S2.predsE km "e2" true psr = some pr) (hpn : S2.predsE km "n3" false psn = some pn) :
+    BenignT (evalQuery (Ec (encode km g) ctes) (Ch.stepFrame 2 kr kn pr pn))
+      (⟨["e0", "e1", "e2", "n0", "n1", "n2", "n3"], (stepRows g rk nk psr psn cs).map (rowOf km)⟩ : Table) := by
+  have hq : Ch.stepFrame 2 kr kn pr pn = Query.simple (.select false
       [Ch.carry "s1" "e0", Ch.carry "s1" "e1", Ch.edgeCompositeOf "e2", Ch.carry "s1" "n0", Ch.carry "s1" "n1", Ch.carry "s1" "n2", S2.nodeCompositeOf "n3"]
       [.mk (.table ["s1"] none)
         [.mk .inner (.table ["edge"] (some "e2")) (some (.bin "=" (.rowCol (S2.col "s1" "n2") "id") (S2.col "e2" "start_id"))),
-         .mk .inner (.table ["node"] (some "n3")) (some (Ch.joinOnE "n3" "e2" kn))]]
-      (S2.both (kr.map (fun ids => Expr.bin "=" (S2.col "e2" "kind_id") (.anyOf (S2.kindsLit ids))))
+         .mk .inner (.table ["node"] (some "n3")) (some (Ch.joinOnE "n3" "e2" (S2.both pn (S2.nodeKindsE "n3" kn))))]]
+      (S2.both (S2.both pr (kr.map (fun ids => Expr.bin "=" (S2.col "e2" "kind_id") (.anyOf (S2.kindsLit ids)))))
         (some (.bin "and" (Ch.guard "s1" 2 0) (Ch.guard "s1" 2 1)))) [] none) := rfl
   rw [hq, evalQuery_simple, evalSelect_from' _ _ _ _ (by decide)]
   simp only [bind_assoc]
@@ -296,9 +344,9 @@ theorem frame2 (km : KindMap) (hinj : ∀ a b i, km.id? a = some i → km.id? b 
     [(⟨"s1", ["e0", "e1", "n0", "n1", "n2"], rowOf km t.1⟩ : Binding), ⟨"e2", edgeCols, encodeEdge km t.2.1⟩, ⟨"n3", nodeCols, encodeNode km t.2.2⟩]
   have hfrom := chain_from km g (Ec (encode km g) ctes) (lookup_edge_Ec km g ctes hedge) (lookup_node_Ec km g ctes hnode) "s1" ["e0", "e1", "n0", "n1", "n2"]
     cs (rowOf km) (lookup_cte_Ec _ ctes "s1" _ hS) "e2" "n3"
-    (.bin "=" (.rowCol (S2.col "s1" "n2") "id") (S2.col "e2" "start_id")) (Ch.joinOnE "n3" "e2" kn) pE (fun _ e n => pN nk e n) ?_ ?_
+    (.bin "=" (.rowCol (S2.col "s1" "n2") "id") (S2.col "e2" "start_id")) (Ch.joinOnE "n3" "e2" (S2.both pn (S2.nodeKindsE "n3" kn))) pE (fun _ e n => pN nk psn e n) ?_ ?_
   · apply benT_bind hfrom
-    apply benT_bind (filterE_ben lv _ (fun t => pW rk t.1 t.2.1) _ ?_)
+    apply benT_bind (filterE_ben lv _ (fun t => pW rk psr t.1 t.2.1) _ ?_)
     · left
       rw [mapE_map_ok lv _ (fun t => (rowOf km ⟨t.1.es ++ [t.2.1], t.1.ns ++ [t.2.2]⟩, some ((Ec (encode km g) ctes).push (lv t))))]
       · simp only [ebind_ok, epure_ok, stepRows, List.map_map, Function.comp_def]
@@ -348,12 +396,15 @@ theorem frame2 (km : KindMap) (hinj : ∀ a b i, km.id? a = some i → km.id? b 
           (Cy.triAnd (some (e.id != x0.id)) (some (e.id != x1.id))) :=
         ⟨and_ben _ _ _ _ _ (Or.inl (eval_guard km _ "s1" 2 0 e x0 hid hx0)) (Or.inl (eval_guard km _ "s1" 2 1 e x1 hid hx1))
           (by unfold Ch.guard; exact (bin_not_any ..).1) (by unfold Ch.guard; exact (bin_not_any ..).2), bin_not_any ..⟩
-      have := whTest_ben _ _ _ _ (both_ben _ _ _ _ _ (stepKinds_ben km hinj _ _ "e2" e hkid (hknown e hem) rk kr hkr) hg)
-      rw [triAnd_is_true, triAnd_is_true] at this
-      have hb : pW rk ⟨[x0, x1], [y0, y1, y2]⟩ e =
-          ((some (Cy.kindAnyOf e.kind rk) == some true) && ((some (e.id != x0.id) == some true) && (some (e.id != x1.id) == some true))) := by
+      have Hed := entAt_edgeA km hinj (Ec (encode km g) ctes) (lv (⟨[x0, x1], [y0, y1, y2]⟩, e, n)) "e2" e (by simp [lv, findBinding, eBA]) (hknown e hem)
+      have hpreds := predsE_ben Hed (hen e hem) psr pr hpr
+      have := whTest_ben _ _ _ _ (both_ben _ _ _ _ _ (both_ben _ _ _ _ _ hpreds (stepKinds_ben km hinj _ _ "e2" e hkid (hknown e hem) rk kr hkr)) hg)
+      rw [triAnd_is_true, triAnd_is_true, triAnd_is_true, okPreds_conjT] at this
+      have hb : pW rk psr ⟨[x0, x1], [y0, y1, y2]⟩ e =
+          ((okPreds (edgeEnt e) psr && (some (Cy.kindAnyOf e.kind rk) == some true)) &&
+            ((some (e.id != x0.id) == some true) && (some (e.id != x1.id) == some true))) := by
         simp only [pW, List.map_cons, List.map_nil, List.contains_cons, List.contains_nil, Bool.or_false, bne]
-        cases Cy.kindAnyOf e.kind rk <;> cases (e.id == x0.id) <;> cases (e.id == x1.id) <;> rfl
+        cases okPreds (edgeEnt e) psr <;> cases Cy.kindAnyOf e.kind rk <;> cases (e.id == x0.id) <;> cases (e.id == x1.id) <;> rfl
       rw [hb]; exact this
   · -- ON of the edge join
     intro c hc e _
@@ -365,40 +416,64 @@ theorem frame2 (km : KindMap) (hinj : ∀ a b i, km.id? a = some i → km.id? b 
     rw [eval_bin _ "=" _ _ (by decide) (col_not_any ..).1 (col_not_any ..).2, rowCol_node_id _ _ km y2 h2, eval_col]
     simp [EEnv.push, lookupQualifiedV, findBinding, colVals, edgeCols, encodeEdge, binOp_eq, vCompare_int_eq, pE]
   · -- ON of the node join
-    intro c hc e _ n _
-    exact joinOnE_ben km hinj _ _ "n3" "e2" e n (by simp [findBinding, nB]) (by simp [lookupQualifiedV, findBinding, colVals, edgeCols, encodeEdge]) nk kn hkn
+    intro c hc e _ n hnm
+    exact joinOnE_ben km hinj _ _ "n3" "e2" e n (by simp [findBinding, nB]) (hnn n hnm) (by simp [lookupQualifiedV, findBinding, colVals, edgeCols, encodeEdge]) nk kn hkn psn pn hpn
 
 -- ------------------------------------------------------------------ the frame's rows are the extensions of the previous frame's rows
 
-theorem filter_pN (g : Graph) (hnd : (g.nodes.map (·.id)).Nodup) (nk : List String) (e : EdgeRec) : g.nodes.filter (pN nk e) = farK g nk e := by
-  unfold pN farK Graph.node?
-  exact filter_by_id g.nodes hnd e.stop (fun n => Cy.kindsAllOf n.kinds nk)
+theorem filter_pN (g : Graph) (hnd : (g.nodes.map (·.id)).Nodup) (nk : List String) (psn : List S1.Pred) (e : EdgeRec) :
+    g.nodes.filter (pN nk psn e) = (farK g nk e).filter (fun n => okPreds (nodeEnt n) psn) := by
+  have h0 : g.nodes.filter (fun n => Cy.kindsAllOf n.kinds nk && n.id == e.stop) = farK g nk e := by
+    unfold farK Graph.node?
+    exact filter_by_id g.nodes hnd e.stop (fun n => Cy.kindsAllOf n.kinds nk)
+  rw [← h0, List.filter_filter]
+  apply List.filter_congr
+  intro n _
+  simp only [pN]
+  cases okPreds (nodeEnt n) psn <;> cases Cy.kindsAllOf n.kinds nk <;> cases (n.id == e.stop) <;> rfl
 
-theorem stepRows_eq (g : Graph) (hnd : (g.nodes.map (·.id)).Nodup) (rk nk : List String) (cs : List Chain) :
-    stepRows g rk nk cs = cs.flatMap (ext g rk nk) := by
+/-- the extensions of a partial match by one hop whose new relationship and new node pass the WHERE conjuncts over them -/
+def extW (g : Graph) (rk nk : List String) (psr psn : List S1.Pred) (c : Chain) : List Chain :=
+  match c.ns.getLast? with
+  | none => []
+  | some l =>
+    (g.edges.filter (fun e => e.start == l.id && Cy.kindAnyOf e.kind rk && !(c.es.map (·.id)).contains e.id && okPreds (edgeEnt e) psr)).flatMap (fun e =>
+      ((farK g nk e).filter (fun n => okPreds (nodeEnt n) psn)).map (fun n => ⟨c.es ++ [e], c.ns ++ [n]⟩))
+
+theorem extW_nil (g : Graph) (rk nk : List String) (c : Chain) : extW g rk nk [] [] c = ext g rk nk c := by
+  unfold extW ext
+  cases c.ns.getLast? with
+  | none => rfl
+  | some l =>
+    have ht : ∀ (L : List NodeRec), L.filter (fun _ => true) = L := fun L => List.filter_eq_self.mpr (fun _ _ => rfl)
+    simp [okPreds, ht]
+
+theorem stepRows_eq (g : Graph) (hnd : (g.nodes.map (·.id)).Nodup) (rk nk : List String) (psr psn : List S1.Pred) (cs : List Chain) :
+    stepRows g rk nk psr psn cs = cs.flatMap (extW g rk nk psr psn) := by
   unfold stepRows
   simp only [List.filter_flatMap, List.map_flatMap, List.filter_map, List.map_map, Function.comp_def, filter_pN g hnd]
   congr 1
   funext c
-  unfold ext pE
+  unfold extW pE
   cases hl : c.ns.getLast? with
   | none => simp
   | some l =>
     simp only
     have hconst : ∀ (b : Bool) (l : List NodeRec), l.filter (fun _ => b) = if b then l else [] := by
       intro b l; cases b <;> simp
-    have hfun : (fun a => List.map (fun x => ({ es := c.es ++ [a], ns := c.ns ++ [x] } : Chain)) (List.filter (fun _ => pW rk c a) (farK g nk a))) =
-        fun a => if pW rk c a then (farK g nk a).map (fun x => ({ es := c.es ++ [a], ns := c.ns ++ [x] } : Chain)) else [] := by
+    have hfun : (fun a => List.map (fun x => ({ es := c.es ++ [a], ns := c.ns ++ [x] } : Chain))
+          (List.filter (fun _ => pW rk psr c a) (List.filter (fun n => okPreds (nodeEnt n) psn) (farK g nk a)))) =
+        fun a => if pW rk psr c a then ((farK g nk a).filter (fun n => okPreds (nodeEnt n) psn)).map (fun x => ({ es := c.es ++ [a], ns := c.ns ++ [x] } : Chain)) else [] := by
       funext a
       rw [hconst]
-      cases pW rk c a <;> simp
+      cases pW rk psr c a <;> simp
     rw [hfun, ← filter_flatMap_ite, List.filter_filter]
     congr 1
     apply List.filter_congr
     intro e _
     simp only [pW]
     rw [Bool.beq_comm (a := l.id)]
-    cases (e.start == l.id) <;> cases Cy.kindAnyOf e.kind rk <;> cases (c.es.map (·.id)).contains e.id <;> rfl
+    cases (e.start == l.id) <;> cases Cy.kindAnyOf e.kind rk <;> cases (c.es.map (·.id)).contains e.id <;> cases okPreds (edgeEnt e) psr <;> rfl
 
 -- ------------------------------------------------------------------ a statement with several frames
 
